@@ -14,6 +14,8 @@ import (
 
 	"github.com/ovh/kmip-go"
 	"github.com/ovh/kmip-go/ttlv"
+	"verifharness/msg"
+	"verifharness/refttlv"
 	"verifharness/vlib"
 )
 
@@ -149,7 +151,7 @@ func c18Eval(c *vlib.Check, e fullCodec, fresh func() any, class string, x []byt
 
 func runC18(c *vlib.Check) {
 	c.Rule = "every input of the C02 corpus (header grammar, single structural deviations of valid encodings incl. non-zero padding / over-long big integers / reordered, duplicated, unknown fields, XML/JSON lexical alternatives: " +
-		"hex numbers, numeric enumerations, mixed-case booleans, numbers as strings ...) that a decoder accepts, for the generic value and the message targets, plus the OASIS vector messages; " +
+		"hex numbers, numeric enumerations, mixed-case booleans, numbers as strings ...) that a decoder accepts, for the generic value and the message targets, plus requests and responses about 3 operations the library does not model (payload empty / one field / nested empty structure / two fields / absent), plus the OASIS vector messages; " +
 		"for each: encode in the same encoding, decode again, encode again (must be identical), and the same through both other encodings when text and dates are representable. distinct = distinct accepted inputs"
 	c.Assumptions = []string{"inputs whose decoded text strings are outside the XML 1.0 Char production or whose dates are outside years 1..9999 are only checked in their own encoding"}
 	jobs := c02Corpus(c.Thorough())
@@ -177,6 +179,51 @@ func runC18(c *vlib.Check) {
 	}
 	for _, x := range extra {
 		jobs = append(jobs, job{"lexical-alternative", []byte(x.doc), x.codec, []int{0}})
+	}
+	// messages about operations this library does not model (not produced by any encoder of this library): the payload is
+	// kept as an opaque structure; payload shapes: empty, one field, nested empty structure, two fields; responses also without payload
+	{
+		codes := []uint32{0x50, 0x80000001}
+		for code := uint32(1); code < 0x30; code++ { // first named-but-unimplemented operation
+			if _, ok := msg.PayloadTypes[kmip.Operation(code)]; !ok {
+				codes = append(codes, code)
+				break
+			}
+		}
+		shapes := func(tag uint32) []*refttlv.Node {
+			return []*refttlv.Node{nil, nStruct(tag), nStruct(tag, nText(tg("UniqueIdentifier"), "id")), nStruct(tag, nStruct(tg("TemplateAttribute"))),
+				nStruct(tag, nText(tg("UniqueIdentifier"), ""), nEnum(tg("ObjectType"), 2))}
+		}
+		for _, code := range codes {
+			for _, resp := range []bool{false, true} {
+				plTag := tg("RequestPayload")
+				if resp {
+					plTag = tg("ResponsePayload")
+				}
+				for _, sh := range shapes(plTag) {
+					kids := []*refttlv.Node{nEnum(tg("Operation"), code)}
+					if resp {
+						kids = append(kids, nEnum(tg("ResultStatus"), 0))
+					}
+					if sh != nil {
+						kids = append(kids, sh)
+					} else if !resp {
+						continue // a request always carries a payload
+					}
+					tree := message(resp, nStruct(tg("BatchItem"), kids...))
+					target := 1
+					if resp {
+						target = 2
+					}
+					if decTargets[target].name != map[bool]string{false: "RequestMessage", true: "ResponseMessage"}[resp] {
+						panic("c18: decTargets order changed: " + decTargets[target].name)
+					}
+					for _, e := range c06encs {
+						jobs = append(jobs, job{"unmodelled-operation", e.write(tree), e.name, []int{target}})
+					}
+				}
+			}
+		}
 	}
 	var accepted int64
 	vlib.Parallel(len(jobs), 0, func(i int) {
